@@ -63,7 +63,8 @@ enum OpK
   O_FORMAT = 0, // a = instant (ns since epoch)
   O_WRITE,      // a = size, b = timestamp ns
   O_RESTART,    // a = mode ('a' / 'w'), b = start instant ns
-  O_FOREIGN     // a = name index
+  O_FOREIGN,    // a = name index
+  O_REMOVE_ACTIVE // the active file is taken away while no sink is open (a log shipper moved it): the next op is an 'a' restart
 };
 struct Op
 {
@@ -472,19 +473,19 @@ std::string fmt_time(int64_t ns, bool gmt, char const* f)
 }
 
 // parse a file name of the sink's family: base[.suffix][.index].log -> (suffix, index); false if not of the family
-bool parse_name(std::string const& n, int naming, std::string& suffix, uint32_t& index)
+bool parse_name(std::string const& n, int naming, std::string& suffix, uint32_t& index, std::string const& ext = ".log")
 {
   suffix.clear();
   index = 0;
-  if (n == "base.log")
+  if (n == "base" + ext)
   {
     return true;
   }
-  if (n.size() < 10 || n.compare(0, 5, "base.") != 0 || n.compare(n.size() - 4, 4, ".log") != 0)
+  if (n.size() < 6 + ext.size() || n.compare(0, 5, "base.") != 0 || n.compare(n.size() - ext.size(), ext.size(), ext) != 0)
   {
     return false;
   }
-  std::string mid = n.substr(5, n.size() - 9); // between "base." and ".log"
+  std::string mid = n.substr(5, n.size() - 5 - ext.size()); // between "base." and the extension
   std::vector<std::string> parts;
   size_t pos = 0;
   while (true)
@@ -570,6 +571,18 @@ Case gen_rot(uint64_t seed, int tier, bool time_rotation)
   c.cfg["overwrite"] = r.chance(3, 4) ? 1 : 0;
   c.cfg["remove_old"] = r.chance(1, 2) ? 1 : 0;
   int64_t limit = r.pick<int64_t>({512, 600, 1024, 2048});
+  {
+    Rng r2(seed ^ 0xf5a1);
+    c.cfg["fsync"] = r2.pick<int64_t>({0, 0, 0, 1, 2});
+    c.cfg["layout"] = r2.chance(1, 5) ? 1 : 0;
+    if (c.cfg["layout"] == 1)
+    {
+      // An extension-less name is only exercised with index naming and within one run: quill's start-up recovery and 'w'
+      // clean-up match files by extension and its date naming treats the date as the extension of such a name — outside
+      // what C14 / C15 state (they do not speak about the shape of the file name), see DESIGN.md section 11.
+      c.cfg["naming"] = 0;
+    }
+  }
   // start instant: a "safe" day in January or July (no DST change within the window), 2001..2100
   int64_t year = r.range(2001, 2099);
   tm base{};
@@ -627,6 +640,10 @@ Case gen_rot(uint64_t seed, int tier, bool time_rotation)
         ts += r.pick<int64_t>({0, 1000000000ll, 3600000000000ll, 86400000000000ll, 86400000000000ll * 3});
         bool w = r.chance(1, 6) && c.cfg["remove_old"] == 1 && c.cfg["naming"] == 0;
         any_w |= w;
+        if (!w && c.cfg["naming"] == 0 && Rng(seed ^ static_cast<uint64_t>(i * 977 + 5)).chance(1, 6))
+        {
+          c.ops.push_back(Op{O_REMOVE_ACTIVE, 0, 0});
+        }
         c.ops.push_back(Op{O_RESTART, w ? 'w' : 'a', ts});
         if (w)
         {
@@ -718,6 +735,18 @@ Case gen_rot(uint64_t seed, int tier, bool time_rotation)
         c.ops.push_back(Op{O_FOREIGN, static_cast<int64_t>(r.below(NFOREIGN)), 0});
       }
     }
+  }
+  if (c.cfg["layout"] == 1)
+  {
+    std::vector<Op> kept;
+    for (auto const& op : c.ops)
+    {
+      if (op.k != O_RESTART && op.k != O_REMOVE_ACTIVE)
+      {
+        kept.push_back(op);
+      }
+    }
+    c.ops = kept;
   }
   return c;
 }
@@ -822,7 +851,7 @@ int daily_point_between(int64_t a_ns, int64_t b_ns, bool gmt, int hh, int mm)
   return optional_inside ? -1 : 0;
 }
 
-Verdict run_rot(Case const& c, std::string const& dir)
+Verdict run_rot(Case const& c, std::string const& base_dir)
 {
   Verdict v;
   set_tz(c.tz);
@@ -833,14 +862,25 @@ Verdict run_rot(Case const& c, std::string const& dir)
   int64_t const limit = c.get("limit", 0);
   int const freq = static_cast<int>(c.get("freq", 0));
   int64_t const interval = c.get("interval", 1);
-  (void)!system(("rm -rf '" + dir + "' && mkdir -p '" + dir + "'").c_str());
-  std::string const path = dir + "/base.log";
+  // layout 1: an extension-less file inside a directory whose name contains a dot ("…/rot.d/base")
+  int const layout = static_cast<int>(c.get("layout", 0));
+  std::string const ext = layout ? "" : ".log";
+  std::string const active_name = "base" + ext;
+  std::string const dir = layout ? base_dir + "/rot.d" : base_dir;
+  (void)!system(("rm -rf '" + base_dir + "' && mkdir -p '" + dir + "'").c_str());
+  std::string const path = dir + "/" + active_name;
 
   auto make_cfg = [&](char mode)
   {
     quill::RotatingFileSinkConfig cfg;
     cfg.set_open_mode(mode);
     cfg.set_timezone(gmt ? quill::Timezone::GmtTime : quill::Timezone::LocalTime);
+    if (c.get("fsync", 0))
+    {
+      // fsync after flushing, at most every `minimum interval` of real time (2: an interval that never elapses within a case)
+      cfg.set_fsync_enabled(true);
+      cfg.set_minimum_fsync_interval(std::chrono::milliseconds{c.get("fsync", 0) == 2 ? 600000 : 0});
+    }
     if (limit)
     {
       cfg.set_rotation_max_file_size(static_cast<size_t>(limit));
@@ -889,7 +929,7 @@ Verdict run_rot(Case const& c, std::string const& dir)
   RotModel model;
   std::map<std::string, std::string> foreign; // name -> content
   int epoch = 0;
-  uint64_t restarts = 0, writes = 0, restarts_w = 0, dst_ambiguous_pairs = 0, name_order_undefined = 0;
+  uint64_t restarts = 0, writes = 0, restarts_w = 0, dst_ambiguous_pairs = 0, name_order_undefined = 0, active_removed = 0;
   bool rotation_may_have_stopped = false;
   // time rotation schedule (reading A: fixed grid, reading B: k periods after the previous trigger) for hourly/minutely
   int hh = 0, mm = 0;
@@ -990,7 +1030,10 @@ Verdict run_rot(Case const& c, std::string const& dir)
 
   auto check_dir = [&](size_t upto_op) -> Verdict
   {
-    sink->flush_sink();
+    if (sink)
+    {
+      sink->flush_sink();
+    }
     auto files = read_dir(dir);
     // foreign files untouched
     for (auto const& kv : foreign)
@@ -1017,11 +1060,11 @@ Verdict run_rot(Case const& c, std::string const& dir)
       }
       std::string suf;
       uint32_t idx;
-      if (!parse_name(kv.first, naming, suf, idx))
+      if (!parse_name(kv.first, naming, suf, idx, ext))
       {
         return viol("unexpected_file_in_directory", "file '" + kv.first + "' does not follow the naming scheme");
       }
-      fam.push_back(F{kv.first, suf, idx, kv.first == "base.log"});
+      fam.push_back(F{kv.first, suf, idx, kv.first == active_name});
     }
     std::sort(fam.begin(), fam.end(),
               [](F const& a, F const& b)
@@ -1347,9 +1390,49 @@ Verdict run_rot(Case const& c, std::string const& dir)
           prev_valid = false;
         }
       }
+      else if (op.k == O_REMOVE_ACTIVE)
+      {
+        // the process has ended (sink destroyed) and somebody takes the active file away; its statements are deliberately
+        // removed and no longer demanded. The rotated files stay: an append-mode restart must continue their sequence.
+        if (oi + 1 < c.ops.size() && c.ops[oi + 1].k == O_RESTART && c.ops[oi + 1].a == 'a')
+        {
+          sink.reset();
+          std::string content;
+          {
+            std::ifstream f(path, std::ios::binary);
+            std::stringstream ss;
+            ss << f.rdbuf();
+            content = ss.str();
+          }
+          size_t pos = 0;
+          while (pos < content.size())
+          {
+            size_t nl = content.find('\n', pos);
+            if (nl == std::string::npos)
+            {
+              break;
+            }
+            if (content[pos] == 'S')
+            {
+              size_t idx = static_cast<size_t>(std::atoll(content.c_str() + pos + 1));
+              if (idx < model.st.size())
+              {
+                model.st[idx].epoch = -1;
+              }
+            }
+            pos = nl + 1;
+          }
+          ::unlink(path.c_str());
+          ++active_removed;
+        }
+      }
       else if (op.k == O_FOREIGN)
       {
         std::string name = FOREIGN[op.a % NFOREIGN];
+        if (name == active_name)
+        {
+          name = "other.log";
+        }
         std::string content = "foreign content of " + name + "\n";
         std::ofstream f(dir + "/" + name, std::ios::binary);
         f << content;
@@ -1363,6 +1446,10 @@ Verdict run_rot(Case const& c, std::string const& dir)
     if (!overwrite && backups >= 0)
     {
       rotation_may_have_stopped = true; // conservatively: once the backup count is reached rotation stops
+    }
+    if (!sink)
+    {
+      continue; // between the end of a process and its restart (O_REMOVE_ACTIVE): judged after the restart
     }
     Verdict d = check_dir(oi);
     if (d.kind != 0)
@@ -1386,6 +1473,10 @@ Verdict run_rot(Case const& c, std::string const& dir)
   }
   v.probes["pairs_spanning_only_an_ambiguous_or_nonexistent_local_time"] = dst_ambiguous_pairs;
   v.probes["file_pairs_whose_local_time_names_repeat_after_a_clock_set_back"] = name_order_undefined;
+  if (freq == 0)
+  {
+    v.probes["active_file_taken_away_before_an_append_restart"] = active_removed;
+  }
   v.probes["pairs_that_must_be_separated"] = must_sep;
   v.probes["pairs_that_must_share_a_file"] = must_share;
   return v;
